@@ -134,6 +134,36 @@ def check(ctx) -> None:
     if not ok_shape:
         L2 = _modulo_cycle(fv, rn)
         if L2 is None:
+            # vectorised spelling: L[arange(n) % M]   (fancy indexing with the running index taken modulo M)
+            core = val
+            while isinstance(core, ast.Call) and call_fname(core) in ("list", "tolist", "tuple") and (core.args or isinstance(core.func, ast.Attribute)):
+                core = core.args[0] if core.args else core.func.value
+            if isinstance(core, ast.Subscript) and isinstance(core.slice, ast.BinOp) and isinstance(core.slice.op, ast.Mod) and call_fname(core.slice.left) == "arange" \
+                    and len(core.slice.left.args) == 1 and is_name(core.slice.left.args[0], "n"):
+                ar = core.slice.left
+                dt = [k_.value for k_ in ar.keywords if k_.arg == "dtype"]
+                narrow = None
+                if dt:
+                    d = dt[0]
+                    if isinstance(d, ast.Name):
+                        r_ = ctx.prog.resolve_name(f.module, d.id)
+                        if isinstance(r_, tuple) and r_[0] == "value" and r_[1].assigns.get(r_[2]) is not None:
+                            d = r_[1].assigns[r_[2]]
+                    dname = d.attr if isinstance(d, ast.Attribute) else d.id if isinstance(d, ast.Name) else d.value if isinstance(d, ast.Constant) else None
+                    bits = {"uint8": 8, "int8": 7, "uint16": 16, "int16": 15, "ubyte": 8, "byte": 7, "short": 15, "ushort": 16, "u1": 8, "i1": 7, "u2": 16, "i2": 15, "bool": 1, "bool_": 1}
+                    wide = {"int": 63, "int64": 63, "intp": 63, "uint64": 64, "int32": 31, "uint32": 32, "int_": 63, "uint": 64, "uintp": 64, "longlong": 63}
+                    if dname in bits:
+                        narrow = (dname, 2 ** bits[dname])
+                    elif dname not in wide:
+                        ctx.rep.inconclusive("C19.cycle", f"{f.qualname}/index-dtype", f"cannot tell the range of the index dtype `{show(dt[0])[:30]}`", where=w)
+                        return
+                if narrow is not None:
+                    ctx.rep.refuted("C19.cycle", f"{f.qualname}/index-dtype", f"the running index is built as `{show(ar)[:60]}` with dtype {narrow[0]}: it wraps around at {narrow[1]} before the modulo is taken, "
+                                    f"so from element {narrow[1]} on the cycle restarts at the first well (wrong whenever the number of wells does not divide {narrow[1]})", where=w)
+                    return
+                ctx.rep.holds("C19.cycle", f"{f.qualname}/index-dtype", "the running index 0..n-1 is a platform integer", where=w)
+                L2 = (core.value, core.slice.right)
+        if L2 is None:
             ctx.rep.inconclusive("C19.cycle", f"{f.qualname}/idiom", f"result `{show(val)[:80]}` is neither the repeat-and-truncate idiom (L * k)[:n] nor the loop [L[i % len(L)] for i in range(n)]", where=w)
             return
         L, M = L2
